@@ -93,7 +93,7 @@ def geometries(n, ratio, max_missing):
     return out
 
 
-def space_for(n, ratio, max_missing, cli=False, far=False):
+def space_for(n, ratio, max_missing, cli=False, far=False, fmt=None):
     geo = geometries(n, ratio, max_missing)
     size = len(geo) * 4 * len(VARIANTS)
 
@@ -109,6 +109,8 @@ def space_for(n, ratio, max_missing, cli=False, far=False):
                 'et_early': et & 1,
                 'et_late': (et >> 1) & 1, 'order': VARIANTS[v][0],
                 'zone': VARIANTS[v][1]}
+        if fmt:
+            case['format'] = fmt
         if far == 'marker':
             # levels passing through -9999 mm, a value loggers use as a
             # no-data marker but which is a level like any other here
@@ -122,7 +124,8 @@ def space_for(n, ratio, max_missing, cli=False, far=False):
     return Space('%s/n=%d/level-step=%s x rain step/missing<=%d%s' % (
         'main(load)' if cli else 'load_data', n, ratio, max_missing,
         '/levels around -9999 mm' if far == 'marker' else
-        '/large magnitudes' if far else ''), size, decode)
+        '/large magnitudes' if far else
+        '/files %s' % fmt if fmt else ''), size, decode)
 
 
 def spaces(tier):
@@ -134,7 +137,11 @@ def spaces(tier):
         out.append(space_for(3, '1', 1, cli=True))
         out.append(space_for(4, '1/2', 1, far=True))
         out.append(space_for(4, '1/2', 1, far='marker'))
+        for fmt in ('crlf', 'spelled', 'quoted'):
+            out.append(space_for(3, '1/2', 1, cli=(fmt == 'crlf'), fmt=fmt))
     else:
+        for fmt in ('crlf', 'spelled', 'quoted'):
+            out.append(space_for(4, '1/2', 1, cli=(fmt == 'crlf'), fmt=fmt))
         out.append(space_for(5, '1/2', 2, far='marker'))
         out.append(space_for(5, '1/2', 2, far=True))
         out.append(space_for(4, '1', 1, far=True))
@@ -197,11 +204,36 @@ def texts(case, rain, et, level):
         def text(t):
             return c11.render(t, tz).strftime(records.FMT)
     out = []
+    fmt = case.get('format')
     for header, rows in (('datetime,p', rain), ('datetime,e', et),
                          ('datetime,z', level)):
-        out.append(records.csv_text(header, [
-            (text(t), v) for t, v in reorder(rows, case['order'])]))
+        body = records.csv_text(header, [
+            (text(t), respell(v, k) if fmt == 'spelled' else v)
+            for k, (t, v) in enumerate(reorder(rows, case['order']))])
+        if fmt == 'crlf':
+            body = body.replace('\n', '\r\n')
+        elif fmt == 'quoted':
+            body = '\n'.join(
+                line if n == 0 else ','.join('"%s"' % cell
+                                             for cell in line.split(','))
+                for n, line in enumerate(body.split('\n')) if line) + '\n'
+        out.append(body)
     return out
+
+
+def respell(v, k):
+    """The same number written differently: as an integer when whole, with
+    a leading plus, in exponent notation, padded with blanks or with trailing
+    zeros - by turns"""
+    from fractions import Fraction
+    base = repr(float(v))
+    options = ['+' + base, base + '000', ' ' + base + ' ', '%.17e' % v]
+    if float(v).is_integer():
+        options.append(str(int(v)))
+    for text in options[k % len(options):] + options:
+        if Fraction(float(text)) == Fraction(float(v)):
+            return text
+    return v
 
 
 def reference(rain, et, level):
